@@ -550,6 +550,11 @@ def getitem(t, idx):
         for k, v in reversed(t[1]):
             out = phi(eq(idx, k), v, out)
         return out
+    if is_const(idx) and type(idx[1]) is int and idx[1] >= 0 and is_op(t, 'SLICE') and len(t) == 5 \
+            and is_const(t[3]) and type(t[3][1]) is int and t[3][1] >= 0 \
+            and (t[4] == NONE or (is_const(t[4]) and type(t[4][1]) is int and t[4][1] >= 0 and idx[1] < t[4][1] - t[3][1])):
+        # x[a:b][i] is x[a + i] (both fail with IndexError when x is too short) for constant a, i >= 0 and i < b - a
+        return getitem(t[2], const(t[3][1] + idx[1]))
     if is_const(idx) and idx[1] in (0, -1) and type(idx[1]) is int and is_op(t, 'SER') and t[3] == const(1):
         return t[2]           # the one byte of a one-byte serialisation is the number (valid whenever SER did not raise)
     if is_const(idx):
@@ -1250,6 +1255,8 @@ def in_(x, container):
 
 
 def is_(a, b):
+    if tag(a) == 'enum' or tag(b) == 'enum':
+        return eq(a, b)         # enum members are singletons: identity and equality coincide
     if tag(a) == 'phi':
         return phi(a[1], is_(a[2], b), is_(a[3], b))
     if tag(b) == 'phi':
